@@ -24,6 +24,16 @@ import common
 from common import Check, main_wrapper
 
 KEY_SCALE_BASE = "scale-base-alignment-unchecked:generate_biases-has-no-check_alignment"
+# compiled networks with a 16-bit LEAKY_RELU whose alpha is negative: the lowering hands the generator an int32 MUL whose OFM scale
+# is negative (the alpha constant carries the scale alpha); the emitter masks it into the unsigned field. Repair: C16-20.
+KEY_NEG_ALPHA = "int16-lrelu-negative-alpha-negative-ofm-scale"
+
+
+def truncation_only(d):
+    """Lean's verdict says: the list holds scales no register can take (`trunc` = every `fits` complaint) and the stream encodes
+    exactly the list with those scales reduced modulo 2^32 (`residual` = 0); decode, stop and alignment are in order."""
+    return (d.get("decode") == "ok" and d.get("stop") == 1 and d.get("align") == 0 and d.get("scalebase") == 0
+            and d.get("trunc", 0) > 0 and d.get("fits") == d.get("trunc") and d.get("residual") == 0)
 
 
 # ------------------------------------------------------------------------------------------------
@@ -134,6 +144,52 @@ def op_stats(ops):
     return st
 
 
+SIB_K = 2          # sibling lists per base list
+
+
+def make_siblings(seed, idx, ai, ops, k=SIB_K):
+    """history cases for base list (seed, idx): [(label, placement, acc index, op list)].  Every sibling differs from the base
+    in ONE field of ONE operation (or in the accelerator) and is generated right after the base in the same process."""
+    import siblings
+    from ethosu.vela import api as a
+    from ethosu.vela import register_command_stream_generator as g
+
+    rng = case_rng(seed + 424243, idx)
+    accs, arch = archs()
+
+    def fits_on(ar):
+        def accept(op):
+            if isinstance(op, a.NpuDmaOperation):
+                return True
+            try:
+                g.get_arch_block_config(op, getattr(op, "block_traversal", a.NpuBlockTraversal.DEPTH_FIRST), ar)
+            except AssertionError:
+                return False
+            if isinstance(op, a.NpuPoolingOperation):
+                import c06_ops
+
+                try:
+                    return c06_ops.pool_scale_accepted(op)
+                except Exception:  # noqa: B902
+                    return False
+            return True
+        return accept
+
+    out = []
+    if rng.random() < 0.12:
+        # the same list on the neighbouring accelerator of the same family (micro-block and address width agree)
+        fam = [i for i in range(len(arch)) if i != ai and arch[i].is_ethos_u65_system == arch[ai].is_ethos_u65_system
+               and arch[i].ofm_ublock == arch[ai].ofm_ublock and arch[i].ncores == arch[ai].ncores]
+        if fam:
+            aj = rng.choice(fam)
+            if all(fits_on(arch[aj])(o) for o in ops):
+                out.append(("accelerator", "replace", aj, list(ops)))
+    opts = {"lut_slots": list(range(8))}
+    for label, place, ops2 in siblings.sibling_lists(rng, a, ops, arch[ai], k - len(out), opts=opts, accept=fits_on(arch[ai])):
+        out.append((label, place, ai, ops2))
+    return out
+
+
 def legal_batch(job):
     seed, lo, hi = job
     sys.path.insert(0, common.HERE)
@@ -141,15 +197,29 @@ def legal_batch(job):
     import c06_ops
 
     out = []
+
+    def one(idx, ai, ops, meta, sib=None):
+        words, recs, err = run_real(ai, ops)
+        e = {"idx": idx, "ai": ai, "err": err, "meta": meta, "line": None, "stats": op_stats(ops), "sib": sib}
+        if words is None:
+            if sib is not None and not (err or "").startswith("unmodelled:"):
+                # a sibling the generator rejects: the model must reject it with the same error kind
+                recs = list(recs) + [{"kwait": -1, "dwait": -1} for _ in range(len(ops) - len(recs))]
+                e["model_line"] = c06_ops.request(ai, ops, recs[:len(ops)], [], tag="c06model")
+            out.append(e)
+            return False
+        e["waits"] = sum(1 for r in recs if r["kwait"] >= 0 or r["dwait"] >= 0)
+        e["line"] = c06_ops.request(ai, ops, recs, words)
+        out.append(e)
+        return True
+
     for idx in range(lo, hi):
         ai, ops, meta = make_case(seed, idx)
-        words, recs, err = run_real(ai, ops)
-        if words is None:
-            out.append({"idx": idx, "ai": ai, "err": err, "meta": meta, "line": None, "stats": op_stats(ops)})
+        if not one(idx, ai, ops, meta):
             continue
-        waits = sum(1 for r in recs if r["kwait"] >= 0 or r["dwait"] >= 0)
-        out.append({"idx": idx, "ai": ai, "err": None, "meta": meta, "stats": op_stats(ops), "waits": waits,
-                    "line": c06_ops.request(ai, ops, recs, words)})
+        # siblings: same process, base first (the Lean side is history-free, the generator must be too)
+        for j, (label, place, aj, ops2) in enumerate(make_siblings(seed, idx, ai, ops)):
+            one(idx, aj, ops2, {"n": len(ops2), "big": meta["big"], "high": meta["high"]}, sib={"j": j, "field": label, "place": place})
     return out
 
 
@@ -157,7 +227,11 @@ def legal_batch(job):
 # malformed stream: one defect injected into an otherwise legal list
 
 DEFECTS = ["pool_scale", "nhcwb16_addr", "nhwc16_addr", "stride_size", "weight_addr", "weight_len", "bias_len", "dma_u55", "lut_index",
-           "broadcast", "reduce_sum_layout", "scalar_range", "no_kernel", "pool_no_padding", "tile_addr"]
+           "broadcast", "reduce_sum_layout", "scalar_range", "no_kernel", "pool_no_padding", "tile_addr", "ew_neg_scale"]
+# defects for which the generator has no check and no hardware encoding exists: the list is outside the property's quantifier, the
+# generator masks the field (like the edge probes below). Accepted silently is the recorded behaviour; what is still demanded is that
+# the stream encodes the list with the field reduced modulo 2^32 and nothing else differs (`truncation_only`).
+TRUNCATING = ("ew_neg_scale",)
 
 
 def inject(rng, ops, arch, defect):
@@ -294,6 +368,26 @@ def inject(rng, ops, arch, defect):
             except AssertionError:
                 return False
         return True
+    if defect == "ew_neg_scale":
+        # an elementwise ADD / SUB / MUL whose global OFM scale is outside [0, 2^32): through an explicit `rescale` (negative, or
+        # 2^32 and above), or (MUL) through a negative quantisation scale of the second operand, which is how the graph optimiser
+        # produced it
+        cands = [o for o in ews if o.sub_op_type in (a.NpuElementWiseOp.MUL, a.NpuElementWiseOp.ADD, a.NpuElementWiseOp.SUB)
+                 and (o.activation is None or o.activation.op_type not in (a.NpuActivationOp.TANH, a.NpuActivationOp.SIGMOID))]
+        if not cands:
+            return False
+        o = rng.choice(cands)
+        q = [f.quantization for f in (o.ifm, o.ifm2, o.ofm) if f is not None]
+        if (o.sub_op_type == a.NpuElementWiseOp.MUL and o.rescale is None and len(q) == 3 and rng.random() < 0.5
+                and all(x is not None and x.scale_f32 is not None for x in q)):
+            o.ifm2.quantization = a.NpuQuantization(scale_f32=-float(o.ifm2.quantization.scale_f32), zero_point=o.ifm2.quantization.zero_point)
+            if o.ifm2_scalar is not None:
+                o.ifm2_scalar = -o.ifm2_scalar       # keeps the quantised scalar (value / scale) what it was
+        else:
+            # below 0 and at / above 2^32: both ends of the unsigned 32-bit field
+            o.rescale = (rng.choice([-1, -1177933312, -(1 << 31), -(1 << 40) + 5, 1 << 32, (1 << 32) + 7, 45992645995, (1 << 63) + 1]),
+                         rng.randint(0, 40))
+        return True
     if defect == "pool_no_padding":
         cands = [o for o in blocks if isinstance(o, a.NpuPoolingOperation)]
         if not cands:
@@ -410,6 +504,18 @@ def edge_cases():
                                     [x // 4 * 4 for x in op.ofm.tiles.addresses])
     op.ofm.strides = None
     out.append(("activation_min_40000_int32", 3, [op], "illegal"))
+    # an elementwise MUL with an explicit negative rescale (the OFM scale of the int16 negative-alpha LEAKY_RELU network, given
+    # through the public API): no unsigned 32-bit field holds it, the generator masks it (negative_ofm_scale_witness)
+    rng = random.Random(11)
+    for _ in range(200):
+        try:
+            ops = c06_ops.gen_op_list(rng, arch[2], 1)
+        except OverflowError:
+            continue
+        if ops and isinstance(ops[0], a.NpuElementWiseOperation) and ops[0].sub_op_type == a.NpuElementWiseOp.MUL:
+            ops[0].rescale = (-1177933312, 30)
+            out.append(("ew_mul_negative_ofm_scale", 2, ops, "illegal"))
+            break
     return out
 
 
@@ -449,6 +555,11 @@ def replay_mode(ck):
     if "case" in obj:
         ai, ops, _ = make_case(obj["case"]["seed"], obj["case"]["index"])
         words, recs, err = run_real(ai, ops)
+        if obj["case"].get("sibling"):
+            # the base list has just been generated (history), now its sibling
+            label, place, ai, ops = make_siblings(obj["case"]["seed"], obj["case"]["index"], ai, ops)[obj["case"]["sibling"]["j"]]
+            print("sibling:", label, place)
+            words, recs, err = run_real(ai, ops)
         if words is None:
             print("real generator:", err)
             return
@@ -468,7 +579,7 @@ def main():
     sys.path.insert(0, common.HERE)
     import c06_ops  # noqa: F401
 
-    n_legal = 200000 if ck.thorough else 3000
+    n_legal = 80000 if ck.thorough else 1800      # base lists; each brings up to SIB_K sibling lists (history)
     n_mal = 20000 if ck.thorough else 700
     n_nets = 900 if ck.thorough else 42
     jobs = min(16, os.cpu_count() or 4)
@@ -484,11 +595,21 @@ def main():
     legal = shard(legal_batch, n_legal)
     lines = [c["line"] for c in legal if c["line"] is not None]
     owners = [c for c in legal if c["line"] is not None]
+    sib_rej = [c for c in legal if c["line"] is None and c.get("sib")]
     for c in legal:
-        if c["line"] is None:
+        if c["line"] is None and not c.get("sib"):
             # the generator rejected a list that is legal by construction
             ck.violation(f"a legal operation list is rejected by the generator ({c['err']})",
                          {"case": {"seed": ck.seed, "index": c["idx"]}, "accelerator_index": c["ai"], "error": c["err"]})
+    # siblings the generator rejects (a one-field change may leave the legal set): the model must reject alike
+    sib_rej_m = [c for c in sib_rej if c.get("model_line")]
+    sib_rej_diff = []
+    for c, ans in zip(sib_rej_m, ck.model([c["model_line"] for c in sib_rej_m]) if sib_rej_m else []):
+        got = ans.split()[0][len("model="):]
+        ck.count("sibling_rejected_" + ":".join(c["err"].split(":")[:2]))
+        if got != c["err"] and got != "err:oracle":
+            sib_rej_diff.append((c, got))
+    ck.count("sibling_rejected_unmodelled", len(sib_rej) - len(sib_rej_m))
     answers = [parse(a) for a in ck.model(lines)]
     nontrivial, model_diff, spec_bad = 0, [], []
     for c, d in zip(owners, answers):
@@ -496,6 +617,10 @@ def main():
             ck.count(k, v)
         ck.count("acc_%d" % c["ai"])
         ck.count("len_%d" % c["meta"]["n"])
+        if c.get("sib"):
+            ck.count("sibling_lists")
+            ck.count("sibling_place_" + c["sib"]["place"])
+            ck.count("sibling_field_" + c["sib"]["field"].split("@")[0].split("+")[0])
         ck.count("elided_" + ("0" if d["elided"] == 0 else "1-49" if d["elided"] < 50 else "50-199" if d["elided"] < 200 else "200+"))
         if c.get("waits"):
             ck.count("lists_with_waits")
@@ -511,8 +636,10 @@ def main():
         what = ("emitted stream does not decode: " if d.get("decode") != "ok" else
                 "stream does not encode the operations it was given: " if d.get("cmp") else
                 "stream violates " + ("the single final stop" if d.get("stop") != 1 else "fit / alignment rules") + ": ")
-        ck.violation(what + d["raw"][d["raw"].find("|") + 2:][:260] + f" (accelerator index {c['ai']}, {c['meta']['n']} operations)",
-                     {"case": {"seed": ck.seed, "index": c["idx"]}, "request": c["line"][:20000], "verdict": d["raw"][:1500],
+        hist = "" if not c.get("sib") else (f"; HISTORY: sibling {c['sib']['j']} of list {c['idx']} (field {c['sib']['field']}, placement "
+                                            f"{c['sib']['place']}), generated in the same process right after its base")
+        ck.violation(what + d["raw"][d["raw"].find("|") + 2:][:260] + f" (accelerator index {c['ai']}, {c['meta']['n']} operations)" + hist,
+                     {"case": {"seed": ck.seed, "index": c["idx"], "sibling": c.get("sib")}, "request": c["line"][:20000], "verdict": d["raw"][:1500],
                       "how_to_replay": "./check C06 --replay <this file> regenerates the list from (seed, index), runs the real "
                                        "generator and prints the Lean verdict"})
     # ---- (b) streams of compiled networks --------------------------------------------------------
@@ -526,9 +653,14 @@ def main():
     # families that aim at the branches of high_level_command_to_npu_op.py (operand swap, stand-alone scale tensors, TRANSPOSE,
     # tile padding, clamp behind a forced zero point / overridden scale); their streams are judged by (b) and (c) as well
     outs += pipe_common.run_corpus(ck, 660 if ck.thorough else 55, profiles=["hl2npu:"], want={"extra": pipeline_extra}, corpus_first=False)
+    # LEAKY_RELU with a negative alpha (index 0 = the witness of finding int16-lrelu-negative-alpha-negative-ofm-scale): on a tree with
+    # repair C16-20 the 16-bit operators stay on the CPU and the 8-bit ones (table lookup) are the regression population
+    outs += pipe_common.run_corpus(ck, 120 if ck.thorough else 12, profiles=["hl2npu:neg_alpha"], want={"extra": pipeline_extra}, corpus_first=False)
     plines, pown = [], []
     for o in outs:
         ck.count("net_status_" + str(o.get("status", "harness-exception")))
+        for t_ in o.get("src_tags") or []:
+            ck.count("src_tag_" + t_)
         if "harness_exception" in o:
             raise common.InfraError("pipeline worker failed:\n" + o["harness_exception"])
         for si, e in enumerate(o.get("extra") or []):
@@ -545,8 +677,14 @@ def main():
         ok = d.get("decode") == "ok" and d.get("stop") == 1 and d.get("cmp") == 0 and d.get("fits") == 0 and d.get("align") == 0 \
             and d.get("scalebase") == 0
         if not ok:
+            # Vela's own front end handed its generator an operation no register can hold: a finding whatever the generator did
+            # with it. Recorded under its key when (Lean) nothing but the masked scale differs, every such operation is an int32
+            # MUL, and the source network has the construct the key names.
+            key = KEY_NEG_ALPHA if (truncation_only(d) and d.get("truncmul32") == d.get("trunc")
+                                    and "int16-leaky-relu-negative-alpha" in (o.get("src_tags") or [])) else None
             ck.violation(f"stream of compiled network {o['idx']} ({o['profile']}, {o.get('opts')}) does not encode its NpuOperation list: "
-                         + d["raw"][d["raw"].find("|") + 2:][:260],
+                         + ("an operation outside the legal range was built and its scale masked: " if key else "")
+                         + d["raw"][d["raw"].find("|") + 2:][:260], key=key, replay=
                          {"profile": o["profile"], "seed": o["seed"], "index": o["idx"], "opts": o.get("opts"), "network": o.get("desc"),
                           "stream": si, "verdict": d["raw"][:1500], "request": e["line"][:20000]})
         if not d["model_eq"]:
@@ -581,6 +719,9 @@ def main():
     for m, a in zip(acc_mal, ck.model([m["spec_line"] for m in acc_mal]) if acc_mal else []):
         d = parse(a)
         bad = not (d.get("decode") == "ok" and d.get("stop") == 1 and d.get("cmp") == 0 and d.get("align") == 0 and d.get("scalebase") == 0)
+        if m["defect"] in TRUNCATING:
+            ck.count("malformed_%s_%s" % (m["defect"], "truncated" if truncation_only(d) else ("encoded" if not bad else "other")))
+            bad = bad and not truncation_only(d)
         if bad:
             ck.violation(f"a list with injected defect '{m['defect']}' is accepted and its stream breaks the Spec: " + d["raw"][d["raw"].find("|") + 2:][:240],
                          {"defect": m["defect"], "malformed_case": {"seed": ck.seed, "index": m["idx"]}, "request": m["spec_line"][:20000],
@@ -605,12 +746,21 @@ def main():
         else:
             # outside the quantifier: record whether the generator truncates silently (cmp>0 and fits>0) as the witness theorems say
             ck.count("edge_%s_%s" % (name, "truncated" if d.get("cmp", 0) > 0 else "encoded"))
+            if name == "ew_mul_negative_ofm_scale" and not truncation_only(d):
+                # the one illegal field for which the Spec says what "masked, nothing else wrong" means
+                ck.violation("an elementwise MUL with a negative OFM scale is accepted and its stream is not the list with the scale "
+                             "reduced modulo 2^32: " + d["raw"][d["raw"].find("|") + 2:][:300], {"edge_case": name, "verdict": d["raw"][:1200]})
     # ---- correspondence broken but the Spec accepts every real stream ----------------------------------
     if model_diff and not any(v[2] for v in ck.violations):
         c, d = min(model_diff, key=lambda x: x[0]["meta"]["n"])
         ck.violation(f"correspondence Model/Emit.lean vs register_command_stream_generator broken on {len(model_diff)} streams: {d['model']}",
                      {"correspondence": "c06 model words", "case": {"seed": ck.seed, "index": c["idx"]}, "model_verdict": d["model"],
                       "request": c["line"][:20000]}, found_input=False)
+    if sib_rej_diff and not any(v[2] for v in ck.violations):
+        c, got = sib_rej_diff[0]
+        ck.violation(f"model and generator disagree on rejecting {len(sib_rej_diff)} sibling lists (field {c['sib']['field']}): generator {c['err']}, model {got}",
+                     {"correspondence": "c06model (siblings)", "case": {"seed": ck.seed, "index": c["idx"], "sibling": c["sib"]},
+                      "request": c["model_line"][:20000], "real": c["err"], "model": got}, found_input=False)
     if mal_diff and not any(v[2] for v in ck.violations):
         m, got = mal_diff[0]
         ck.violation(f"model and generator disagree on rejecting {len(mal_diff)} malformed lists: defect {m['defect']}: generator {m['real']}, model {got}",
@@ -628,7 +778,7 @@ def main():
         "rule": "case = one operation list (random legal list, or the NpuOperation list of one compiled network's stream) through the real "
                 "generator and the Lean decoder/comparator; non-trivial when >= 1 register write was elided; lists are distinct by "
                 "(seed, index) / (profile, index, stream)",
-        "legal_lists": len(lines), "pipeline_streams": len(plines), "pipeline_operations": p_ops, "malformed_lists": len(mal),
+        "legal_lists": len(lines), "sibling_lists": ck.counters.get("sibling_lists", 0), "pipeline_streams": len(plines), "pipeline_operations": p_ops, "malformed_lists": len(mal),
         "model_word_disagreements": len(model_diff), "malformed_disagreements": len(mal_diff), "spec_rejections": len(spec_bad),
         "exhaustive": False, **hl_tot,
         "partial": "OFM/OPA/OPB scale values, op_to_scale, SHRAM layout, BLOCKDEP and wait watermarks are taken from the run "
